@@ -2,6 +2,7 @@
 Driver for C12.
   c12 chain <rows> <cols> <B|P> <pattern|-> <interleave: +c|-c|0> => <n> <n_cw> <k> <rate bits> <sign vector>…
       sign vector: one char per LLR the injected decoder received: '+' (> 0), '-' (< 0), '0' (exactly zero), 'n' (NaN)
+  c12 misfit <rows> <cols> <B|P> <pattern|-> <interleave> => <ok|err|hang> <frames that reached a decoder> <their lengths|->
   c12 noise <k> <n> <bps> <ebn0 bits> => <sigma bits> <N> <mean bits> <var bits> <lag1 bits>
   c12 scale <rows> <cols> <B|P> <pattern|-> <interleave> <ebn0 bits> => <llr bits,…>      first frame handed to the decoder at 60 dB
   c12 awgn <sigma bits> <N> => 14 statistics of AwgnChannel::add_noise on complex and real symbols
@@ -72,6 +73,25 @@ def handle (inp out : List String) : String :=
         else (out.drop 4).foldl (fun acc v => match acc with | some e => some e | none => checkVector h cfg v) none
       verdict (model ++ out.drop 4) out prop
     | _, _ => "BADLINE c12 chain"
+  | ["misfit", r, c, m, p, i] =>
+    -- a configuration whose block sizes do not fit: the chain model panics (C12.misfit_psk8_panics / misfit_interleaver_panics);
+    -- the run must fail and no LLR vector may have reached a decoder
+    match parseSM r c, parseCfg m p i with
+    | some h, some cfg =>
+      let cw := List.replicate h.ncols false
+      match noiseless Sc.float cfg 0.001 cw with
+      | .ok _ => "ok [not-compared: the-model-says-this-configuration-fits]"
+      | _ =>
+        let lens := match out.getD 2 "-" with | "-" => some [] | t => (t.splitOn ",").mapM String.toNat?
+        let prop : Option String :=
+          match lens with
+          | none => some "unreadable-frame-lengths"
+          | some ls =>
+            if ls.any (· ≠ h.ncols) then some s!"a-frame-that-is-not-of-codeword-length-reached-the-decoder lengths={ls.take 4}"
+            else if out.getD 0 "" ≠ "err" then some s!"a-run-whose-block-sizes-do-not-fit-did-not-return-an-error result={out.getD 0 ""}"
+            else none
+        verdict ["err", "0", "-"] out prop
+    | _, _ => "BADLINE c12 misfit"
   | ["noise", k, n, bps, e] =>
     match k.toNat?, n.toNat?, bps.toNat?, parseF e, (out.take 5).mapM parseF with
     | some k, some n, some bps, some ebn0, some [sg, cnt, mean, var, lag1] =>
